@@ -65,7 +65,7 @@ static rc::Gen<Op> gen_op_from(const std::map<int, double> &w, int nmods, const 
         case P::O_CTX_REG: ga = gens::range<long>(0, 8); break;
         case P::O_LOOP: ga = gens::weighted_values<long>({{2, 0}, {2, 9}, {1, 200}}); break;
         case P::O_QUIT: ga = gens::weighted_values<long>({{2, 0}, {2, 7}, {1, 42}, {1, 255}, {1, 4}, {1, 11}}); break;
-        case P::O_DISPATCH: ga = gens::weighted_values<long>({{5, 1}, {3, 2}, {2, 4}, {1, 12}}); break;
+        case P::O_DISPATCH: ga = gens::weighted_values<long>({{5, 1}, {3, 2}, {2, 4}, {1, 12}}); if (prop == "C03") gb = gens::weighted_values<long>({{14, 0}, {3, 1}, {1, 2}, {1, 3}, {1, 4}}); else if (prop == "C04" || prop == "C02" || prop == "C08") gb = gens::weighted_values<long>({{30, 0}, {1, 1}, {1, 3}}); break;
         case P::O_SET_TICK: ga = gens::weighted_values<long>({{1, 0}, {2, 2}, {2, 5}, {1, 10}}); break;
         case P::O_REG: ga = prop == "C15" ? gens::weighted_values<long>({{3, 0}, {3, 1}, {2, 2}, {1, 3}, {3, 8}, {3, 16}, {3, 32}, {1, 4}, {1, 64}, {1, 9}, {1, 56}}) : gens::weighted_values<long>({{12, 0}, {2, 1}, {1, 2}, {1, 4}, {1, 64}, {1, 8}, {1, 16}, {1, 32}, {1, 68}}); gb = gens::weighted_values<long>({{2, 0}, {1, 1}}); break;
         case P::O_SUB: ga = prop == "C19" ? gens::weighted_values<long>({{1, 0}, {1, 4}, {3, 8}, {3, 9}, {2, 10}, {2, 11}, {1, 12}, {2, 13}, {2, 14}}) : gens::weighted_values<long>({{4, 0}, {3, 1}, {2, 2}, {2, 3}, {3, 4}, {2, 5}, {2, 6}, {1, 7}, {1, 8}, {1, 9}, {1, 10}, {1, 11}, {1, 13}, {1, 14}, {1, 15}});
@@ -141,7 +141,18 @@ static rc::Gen<std::vector<Op>> gen_phrase(const Weights &w, int nmods, const st
         [](std::tuple<int, int, long, long, long, long, long> t) {
             int s = std::get<0>(t), r = std::get<1>(t);
             std::vector<Op> v{mkop(P::O_SET_TB, s, 0, std::get<2>(t), std::get<3>(t))};
+            const long variant = (std::get<2>(t) / 50 + std::get<3>(t) + std::get<4>(t)) % 6, topic = std::get<4>(t) % 4;
+            if (variant <= 2) v.insert(v.begin(), mkop(P::O_SUB, s, 0, topic, 0)); // subscribed before the bucket exists
             for (long i = 0; i < std::get<4>(t); i++) { v.push_back(mkop(P::O_TELL, s, r)); if (std::get<5>(t) % 3 == 0 && i % 2 == 1) { v.push_back(mkop(P::O_PAUSE, s)); v.push_back(mkop(P::O_RESUME, s)); } }
+            // other classes of token-consuming calls, issued when the burst has (probably) emptied the bucket: refused calls must have no effect
+            switch (variant) {
+            case 0: v.push_back(mkop(P::O_UNSUB, s, 0, topic)); v.push_back(mkop(P::O_PUB, r, 0, topic, 0)); break;
+            case 1: v.push_back(mkop(P::O_UNSUB, s, 0, topic)); v.push_back(mkop(P::O_SUB, s, 0, (topic + 1) % 4, 0)); break;
+            case 2: v.push_back(mkop(P::O_SUB, s, 0, topic, 3)); v.push_back(mkop(P::O_BECOME, s, 0, 1)); break;
+            case 3: v.push_back(mkop(P::O_BECOME, s, 0, 2)); v.push_back(mkop(P::O_UNBECOME, s)); v.push_back(mkop(P::O_BATCH_SIZE, s, 0, 2)); break;
+            case 4: v.push_back(mkop(P::O_SUB, s, 0, topic, 0)); v.push_back(mkop(P::O_PAUSE, s)); v.push_back(mkop(P::O_RESUME, s)); break;
+            default: break;
+            }
             v.push_back(mkop(P::O_SLEEP, 0, 0, std::get<5>(t))); v.push_back(mkop(P::O_DISPATCH, 0, 0, std::get<6>(t)));
             for (long i = 0; i < std::get<4>(t) / 2 + 1; i++) v.push_back(mkop(P::O_TELL, s, r));
             return v; });
@@ -172,6 +183,41 @@ static rc::Gen<std::vector<Op>> gen_phrase(const Weights &w, int nmods, const st
         if (std::get<4>(t) == 1) v.push_back(mkop(P::O_SRC_DEREG, s, 0, kind, key));
         if (std::get<4>(t) == 2) v.push_back(mkop(P::O_STOP, s));
         return v; });
+    // something is pending, the poll call of the next dispatch fails (interrupted, or for real), later dispatches go on
+    auto faultcycle = gen::map(gen::tuple(slot, slot, gens::range<long>(0, 8), gens::weighted_values<long>({{5, 1}, {2, 2}, {2, 3}, {1, 4}}), gens::range<long>(0, 3), gens::range<long>(1, 4)), [](std::tuple<int, int, long, long, long, long> t) {
+        std::vector<Op> v;
+        switch (std::get<4>(t)) {
+        case 0: v.push_back(mkop(P::O_TELL, std::get<0>(t), std::get<1>(t))); break;
+        case 1: v.push_back(mkop(P::O_FD_REG, std::get<1>(t), 0, std::get<2>(t), 0)); v.push_back(mkop(P::O_FD_WRITE, 0, 0, std::get<2>(t))); break;
+        default: v.push_back(mkop(P::O_TELL, std::get<0>(t), std::get<1>(t))); v.push_back(mkop(P::O_TELL, std::get<1>(t), std::get<0>(t))); break;
+        }
+        v.push_back(mkop(P::O_DISPATCH, 0, 0, 1, std::get<3>(t)));
+        v.push_back(mkop(P::O_DISPATCH, 0, 0, std::get<5>(t)));
+        return v; });
+    // tick phrases: a subscriber to the tick topic, a short period, dispatches spaced by sleeps, then a longer period (C19.3);
+    // and: only the tick is due in a poll batch while a module waits in IDLE (C01.6)
+    auto tickcycle = gen::map(gen::tuple(slot, gens::weighted_values<long>({{3, 12}, {1, 14}}), gens::weighted_values<long>({{1, 2}, {2, 5}}), gens::weighted_values<long>({{1, 10}, {3, 50}, {2, 200}, {1, 0}}), gens::range<long>(2, 6), gens::range<long>(10, 17), gens::weighted_values<long>({{2, 3}, {1, 6}})),
+        [](std::tuple<int, long, long, long, long, long, long> t) {
+            std::vector<Op> v{mkop(P::O_SUB, std::get<0>(t), 0, std::get<1>(t), 0), mkop(P::O_SET_TICK, 0, 0, std::get<2>(t))};
+            for (long i = 0; i < std::get<4>(t); i++) { v.push_back(mkop(P::O_SLEEP, 0, 0, std::get<6>(t))); v.push_back(mkop(P::O_DISPATCH, 0, 0, 1)); }
+            v.push_back(mkop(P::O_SET_TICK, 0, 0, std::get<3>(t)));
+            for (long i = 0; i < std::get<5>(t); i++) { v.push_back(mkop(P::O_SLEEP, 0, 0, std::get<6>(t))); v.push_back(mkop(P::O_DISPATCH, 0, 0, 1)); }
+            return v; });
+    auto tickeval = gen::map(gen::tuple(slot, gens::weighted_values<long>({{2, 2}, {1, 5}}), gens::range<long>(0, 3), gens::weighted_values<long>({{2, 8}, {1, 14}})), [](std::tuple<int, long, long, long> t) {
+        std::vector<Op> v{mkop(P::O_SET_TICK, 0, 0, std::get<1>(t)), mkop(P::O_DRAIN)};
+        if (std::get<2>(t) != 0) v.push_back(mkop(P::O_REG, std::get<0>(t), 0, 0, 0));
+        v.push_back(mkop(P::O_SLEEP, 0, 0, std::get<3>(t))); v.push_back(mkop(P::O_DISPATCH, 0, 0, 1));
+        v.push_back(mkop(P::O_SLEEP, 0, 0, std::get<3>(t))); v.push_back(mkop(P::O_DISPATCH, 0, 0, 1));
+        return v; });
+    if (prop == "C19" || prop == "C01") {
+        std::vector<size_t> ws = prop == "C19" ? std::vector<size_t>{55, 6, 14, 2, 14, 1, 0, 1, 0, 1} : std::vector<size_t>{70, 8, 6, 1, 8, 2, 1, 1, 0, 1};
+        auto rest = gens::weighted<std::vector<Op>>({{ws[0], single}, {ws[1], deliver}, {ws[2], pubdeliver}, {ws[3], burst}, {ws[4], loopcycle}, {ws[5], become_cycle}, {ws[6], stash_cycle}, {ws[7], batch}, {ws[9], fdcycle}});
+        return prop == "C19" ? gens::weighted<std::vector<Op>>({{93, rest}, {5, tickcycle}, {2, tickeval}}) : gens::weighted<std::vector<Op>>({{95, rest}, {1, tickcycle}, {4, tickeval}});
+    }
+    if (prop == "C03") {
+        auto rest = gens::weighted<std::vector<Op>>({{50, single}, {8, deliver}, {8, pubdeliver}, {3, burst}, {8, loopcycle}, {1, become_cycle}, {1, stash_cycle}, {2, batch}, {18, fdcycle}});
+        return gens::weighted<std::vector<Op>>({{74, rest}, {18, livecycle}, {8, faultcycle}});
+    }
     if (prop == "C03" || prop == "C20" || prop == "C09" || prop == "C04") {
         size_t lw = prop == "C04" ? 6 : 18;
         auto rest = (prop == "C04") ? gens::weighted<std::vector<Op>>({{55, single}, {10, deliver}, {10, pubdeliver}, {4, burst}, {6, loopcycle}, {3, become_cycle}, {4, stash_cycle}, {3, batch}, {5, fdcycle}, {3, overflow}})
@@ -227,7 +273,9 @@ static rc::Gen<Prog> gen_prog(const rt::Args &args) {
         auto preflags = (prop == "C15") ? gens::weighted_values<int>({{4, 0}, {3, 1}, {2, 2}, {4, 8}, {2, 16}, {2, 32}, {1, 9}, {1, 24}, {1, 3}, {1, 4}, {1, 64}})
                       : (prop == "C19" || prop == "C07" || prop == "C01") ? gens::weighted_values<int>({{10, 0}, {3, 1}, {1, 2}, {1, 4}, {1, 64}, {1, 8}})
                       : gens::weighted_values<int>({{14, 0}, {1, 1}, {1, 2}, {1, 4}, {1, 64}, {1, 8}, {1, 16}, {1, 32}});
-        auto prelude = gen::tuple(gens::weighted_values<long>({{5, 0}, {3, 1}, {1, 2}, {1, 4}, {1, 5}}), gens::vec<int>(nmods, nmods, gens::weighted_values<int>({{1, 0}, {5, 1}, {3, 2}})), gens::vec<int>(nmods, nmods, preflags));
+        // driving mode: the body runs under m_ctx_dispatch() calls issued by the harness, or inside a blocking m_ctx_loop() (driver module executes it)
+        const long loop_share = (prop == "C18" || registry) ? 0 : (prop == "C03" || prop == "C08" || prop == "C02" || prop == "C01" || prop == "C19" || prop == "C13") ? 25 : 12;
+        auto prelude = gen::tuple(gen::map(gen::pair(gens::weighted_values<long>({{5, 0}, {3, 1}, {1, 2}, {1, 4}, {1, 5}}), gens::weighted_values<long>({{100 - loop_share, 0}, {loop_share / 2 + 1, 1}, {loop_share / 2, 2}})), [](std::pair<long, long> pr) { return pr.first + 16 * pr.second; }), gens::vec<int>(nmods, nmods, gens::weighted_values<int>({{1, 0}, {5, 1}, {3, 2}})), gens::vec<int>(nmods, nmods, preflags));
         auto body = gen::map(gen::scale(0.25, gen::container<std::vector<std::vector<Op>>>(gen_phrase(w, nmods, prop))), [](std::vector<std::vector<Op>> ph) {
             std::vector<Op> v; for (auto &p : ph) for (auto &o : p) v.push_back(o);
             if (v.size() > 70) v.resize(70); return v; });
@@ -237,13 +285,15 @@ static rc::Gen<Prog> gen_prog(const rt::Args &args) {
                 p.mods[i].hooks = std::get<1>(t)[i];
                 for (int k = 0; k < P::CB_NKINDS; k++) p.mods[i].scripts[k] = std::get<0>(t)[i][k];
             }
-            Op c; c.code = P::O_CTX_REG; c.a = std::get<0>(std::get<2>(t)); p.ops.push_back(c);
+            const long loopmode = std::get<0>(std::get<2>(t)) / 16;
+            Op c; c.code = P::O_CTX_REG; c.a = std::get<0>(std::get<2>(t)) % 16; p.ops.push_back(c);
             auto &pre = std::get<1>(std::get<2>(t));
             for (int i = 0; i < nmods; i++) {
                 if (pre[i] >= 1) { Op r; r.code = P::O_REG; r.s = i; r.a = std::get<2>(std::get<2>(t))[i]; r.b = (i % 2); p.ops.push_back(r); }
                 if (pre[i] >= 2 && !registry) { Op s; s.code = P::O_START; s.s = i; p.ops.push_back(s); }
             }
-            if (!registry && std::get<0>(std::get<2>(t)) != 5) { Op d; d.code = P::O_DISPATCH; d.a = 1; p.ops.push_back(d); } // usually start the loop right away
+            if (!registry && loopmode) { Op d; d.code = P::O_LOOP; d.a = loopmode == 1 ? 0 : 9; p.ops.push_back(d); } // blocking loop: everything that follows is executed by the driver module
+            else if (!registry && std::get<0>(std::get<2>(t)) % 16 != 5) { Op d; d.code = P::O_DISPATCH; d.a = 1; p.ops.push_back(d); } // usually start the loop right away
             for (auto &o : std::get<3>(t)) p.ops.push_back(o);
             return p;
         });
@@ -251,6 +301,7 @@ static rc::Gen<Prog> gen_prog(const rt::Args &args) {
 }
 
 static bool own_rule(const std::string &prop, const std::string &rule) {
+    if (getenv("VERIF_ALLRULES")) return true; // diagnostic mode: every rule of every property counts (used to look at what the foreign-rule class hides)
     if (rule.size() > 6 && rule.compare(rule.size() - 6, 6, ".CRASH") == 0) return true;
     return rule.compare(0, prop.size() + 1, prop + ".") == 0;
 }
